@@ -1802,6 +1802,8 @@ func (e *Exec) rangeStmt(st *State, s *ast.RangeStmt, label string) {
 		}
 		if seqVal != nil {
 			extra["iter"] = *seqVal
+		} else if isSlcSort(xv.T.Sort) {
+			extra["iter"] = xv // the slice being ranged over (evaluated once, before the loop)
 		}
 		env := e.loopEnv(st, s.Body.Pos(), extra)
 		return env
